@@ -490,6 +490,36 @@ func checkUpdateCallers(c *Ctx, ci *concInfo, f *ssa.Function, p *ssa.Parameter,
 			fn = a
 		}
 		desc := "update function passed by " + funcName(caller) + " overlays the current settings"
+		if fn == nil {
+			// a function value built by a helper (mergePayload(raw), overwriteWith(settings)): every function it can
+			// return is judged; they must agree
+			var fns []*ssa.Function
+			seenFn := map[*ssa.Function]bool{}
+			for _, h := range funcsBehind(arg, 0) {
+				if h != nil && !seenFn[h] && len(h.Params) > 0 {
+					seenFn[h] = true
+					fns = append(fns, h)
+				}
+			}
+			if len(fns) > 0 {
+				allUse, noneUse := true, true
+				for _, h := range fns {
+					if updateUsesArg(h) {
+						noneUse = false
+					} else {
+						allUse = false
+					}
+				}
+				switch {
+				case allUse:
+					c.ok("C19-OVERLAY", funcName(caller), desc, e.Site.Pos(), "the result of every update function the helper returns depends on the settings it is given")
+					continue
+				case noneUse:
+					wholesaleCallers(c, ci, caller, e.Site.Pos(), 0)
+					continue
+				}
+			}
+		}
 		if fn == nil || len(fn.Params) == 0 {
 			if q, isParam := arg.(*ssa.Parameter); isParam && q.Parent() == caller {
 				checkUpdateCallers(c, ci, caller, q, depth+1) // handed through
@@ -498,17 +528,7 @@ func checkUpdateCallers(c *Ctx, ci *concInfo, f *ssa.Function, p *ssa.Parameter,
 			c.undecided("C19-OVERLAY", funcName(caller), desc, e.Site.Pos(), "the function value applied to the current settings could not be resolved")
 			continue
 		}
-		uses := true
-		for _, b := range fn.Blocks {
-			for _, ins := range b.Instrs {
-				if r, ok := ins.(*ssa.Return); ok && len(r.Results) == 1 {
-					if !backSlice(r.Results[0])[ssa.Value(fn.Params[len(fn.Params)-1])] {
-						uses = false
-					}
-				}
-			}
-		}
-		if uses {
+		if updateUsesArg(fn) {
 			c.ok("C19-OVERLAY", funcName(caller), desc, e.Site.Pos(), "the result of the update function depends on the settings it is given")
 			continue
 		}
@@ -798,4 +818,19 @@ func rulePull(c *Ctx) {
 	c.check(!bad, "C19-PULL", funcName(h), "every configuration change pulls the configuration", h.Pos(),
 		"every path through the handler starts a pull of the client's configuration",
 		"the configuration-change handler can return without pulling the configuration (a throttle, a cache, an early return): a change that arrives on such a path never takes effect")
+}
+
+// updateUsesArg: every value the update function returns is computed from its (last) parameter.
+func updateUsesArg(fn *ssa.Function) bool {
+	uses := true
+	for _, b := range fn.Blocks {
+		for _, ins := range b.Instrs {
+			if r, ok := ins.(*ssa.Return); ok && len(r.Results) == 1 {
+				if !backSlice(unspillResult(r.Results[0], b))[ssa.Value(fn.Params[len(fn.Params)-1])] {
+					uses = false
+				}
+			}
+		}
+	}
+	return uses
 }
